@@ -174,6 +174,32 @@ def final_report_rule(run, rule):
         run.broken.append("C15-final: no instantiation of virtual_ptr::final with its type check found in the AST unit")
 
 
+def context_rule(run, rule, ast):
+    """every unknown_class_error built at update time says so: `context` is set (to `update`) next to `type` - the handler is
+    documented to read it, and reading an unset member is undefined"""
+    n = 0
+    for f in crules.by_name(ast, "augment_classes") + crules.by_name(ast, "augment_methods"):
+        for st in astq.walk(f["body"]):
+            if st.get("k") != "DeclStmt":
+                continue
+            for d in st["decls"]:
+                if not (d.get("type") or "").endswith("unknown_class_error"):
+                    continue
+                n += 1
+                sets = {}
+                for x in astq.walk(f["body"]):
+                    if x.get("k") == "BinaryOperator" and x.get("op") == "=":
+                        l = astq.strip(x["c"][0])
+                        if l is not None and l.get("k") == "MemberExpr" and l.get("c") and (astq.strip(l["c"][0]) or {}).get("k") == "DeclRefExpr" and astq.strip(l["c"][0])["ref"]["did"] == d["did"]:
+                            sets[l["member"]] = x["c"][1]
+                okc = "context" in sets and (astq.refname(astq.strip(sets["context"])) or "").endswith("::update")
+                run.instance(rule, "%s: the unknown_class_error built at line %s carries context = update" % (crules.short(f), st["l"]), (f["file"], st["l"]), ok=okc)
+                if not okc:
+                    run.violation(rule, "compiler::%s|error-context" % f["name"].rsplit("::", 1)[1], "the unknown_class_error built here sets %s but not `context` (documented: where the error was detected): the handler reads an indeterminate value" % sorted(sets), (f["file"], st["l"]))
+    if n < 3:
+        run.broken.append("C15: fewer than three update-time unknown_class_error objects found (%d)" % n)
+
+
 def check(run):
     r1, r2, r3 = "C15-update", "C15-call", "C15-final"
     run.rule(r1, "update-time class_map look-ups: run for every record, null-tested first, null -> unknown_class_error(looked-up id) + handler + abort", floor=9)
@@ -182,10 +208,20 @@ def check(run):
     r4 = "C15-abort"
     run.rule(r4, "after the report of an unknown class / wrong final type no path continues to a table read: abort() follows the handler call", floor=6)
     final_report_rule(run, r3)
+    # a checked policy without an error_handler facet ("report ... if Policy has an error_handler facet; otherwise, abort") must be able
+    # to use final at all
+    from .. import e3
+    fu = e3.Unit("c15_final_noerr", witness.PRELUDE + "\nnamespace yw_reg { yw::pol_classes<yw::p_noerr> r; }\n")
+    fu.add("must-compile|final-no-handler", "virtual_ptr::final / final_virtual_ptr compile under a checked policy that has no error_handler facet",
+           "auto c15_f(yw::B& b) { auto p = virtual_ptr<yw::B, yw::p_noerr>::final(b); auto q = final_virtual_ptr<yw::p_noerr>(b); return p._vptr() == q._vptr(); }", separate=True)
+    for ob, ok, msg in e3.run_unit(run, r3, fu, ndebug=False):
+        if not ok:
+            run.violation(r3, ob["key"], "%s: %s" % (ob["desc"], msg), "include/yorel/yomm2/core.hpp")
     for nd in ([True] if run.tier == "quick" else [True, False]):
         ast, _ = crules.unit(run, ndebug=nd)
         crules.lookup_rules(run, None, r1, ast)
         lookups_unconditional(run, r1, ast)
+        context_rule(run, r1, ast)
         crules.phase_rules(run, r1, ast)
         # what the checked hash does with an id it does not know: report it through the handler, then abort - on every rejecting path
         for x in ("C15-h1", "C15-h2", "C15-h3", "C15-h5"):
